@@ -33,7 +33,7 @@ def canon_sum_term(cx, name, n, getter, extra_key=""):
     key = f"{name}|{nz.sexpr()}|{core.sexpr()}|{extra_key}"
     import hashlib
     h = hashlib.sha1(key.encode()).hexdigest()[:10]
-    c = z3.Real(f"{name}_{h}")
+    c = cx.new_const(f"{name}_{h}", "real")
     cx.ghost.setdefault("reductions", {})[str(c)] = (name, nz, core, kap)
     if coef is not None:
         return coef * c
@@ -698,7 +698,7 @@ def install(reg):
         body = z3.simplify(T.zb(g((kap,))))
         import hashlib
         h = hashlib.sha1((T.zi(n).sexpr() + "|" + body.sexpr()).encode()).hexdigest()[:10]
-        c = z3.Int(f"count_{h}")
+        c = cx.new_const(f"count_{h}", "int")
         cx.fact(z3.And(c >= 0, c <= T.zi(n)), "numpy:count of a boolean mask is between 0 and its length")
         cx.ghost.setdefault("counts", {})[str(c)] = (n, g)
         return Sym(c)
@@ -766,7 +766,7 @@ def install(reg):
         body = z3.simplify(T.zr(g((kap,))))
         import hashlib
         h = hashlib.sha1((T.zi(n).sexpr() + "|" + body.sexpr()).encode()).hexdigest()[:10]
-        f = T.uf(f"quantile_{h}", "real", "real")
+        f = cx.new_fn(f"quantile_{h}", "real", "real")
         cx.ghost.setdefault("quantiles", {})[f"quantile_{h}"] = (n, g)
         cx.trusted.add("numpy:quantile(sample, q) is the empirical q-quantile (linear interpolation)")
         return f(T.zr(q))
@@ -814,6 +814,8 @@ def install(reg):
         kind = k.get("kind", None)
         ind = _sorted_array(itp, v)[1]
         ind.sort_stable = kind in ("mergesort", "stable")
+        itp.scratch["argsort_info"] = ind.sort_info[:2]
+        itp.scratch["argsort_of"] = v
         return ind
 
     @fn("numpy.cumsum")
@@ -871,13 +873,17 @@ def install(reg):
         o = cx.ordinal("isin")
         eg, tg = elems.getter(), test.getter()
         m = test.shape[0]
-        hit = T.uf(f"isin!{o}", "int", "bool")
-        wit = T.uf(f"isin_w!{o}", "int", "int")
+        hit = cx.new_fn(f"isin!{o}", "int", "bool")
+        wit = cx.new_fn(f"isin_w!{o}", "int", "int")
         i, j = z3.Ints(f"ii!{o} ij!{o}")
         n = elems.shape[0]
         cx.fact(z3.ForAll([i], z3.Implies(z3.And(i >= 0, i < T.zi(n), hit(i)), z3.And(wit(i) >= 0, wit(i) < T.zi(m), T.z(tg((wit(i),))) == T.z(eg((i,))))), patterns=[hit(i)]), "numpy:isin")
-        cx.fact(z3.ForAll([i, j], z3.Implies(z3.And(i >= 0, i < T.zi(n), j >= 0, j < T.zi(m), T.z(tg((j,))) == T.z(eg((i,)))), hit(i)),
-                          patterns=[z3.MultiPattern(hit(i), T.z(tg((j,))))] if T.is_z3(tg((j,))) else []), "numpy:isin")
+        body2 = z3.Implies(z3.And(i >= 0, i < T.zi(n), j >= 0, j < T.zi(m), T.z(tg((j,))) == T.z(eg((i,)))), hit(i))
+        try:
+            f2 = z3.ForAll([i, j], body2, patterns=[z3.MultiPattern(hit(i), T.z(tg((j,))))] if T.is_z3(tg((j,))) else [])
+        except z3.Z3Exception:
+            f2 = z3.ForAll([i, j], body2)
+        cx.fact(f2, "numpy:isin")
         out = SArr.fresh((n,), lambda idx: hit(T.zi(idx[0])), "bool", name=f"isin{o}")
         out.isin_info = (elems, test)
         return out
@@ -1012,11 +1018,16 @@ def install(reg):
         if T.is_conc(s) and s <= 0:
             raise PyRaise("ValueError", "number sections must be larger than 0")
         o = cx.ordinal("split")
-        w = z3.Int(f"split_w!{o}")
         cx.require(f"safe.split#{cx.ordinal('safe.split')}", T.gt(s, 0), "safe", "np.split: number of sections > 0")
-        # exact division: exists w. w*s == n  (raises ValueError otherwise)
-        cx.fact(z3.Implies(T.zi(n) % T.zi(s) == 0, z3.And(w * T.zi(s) == T.zi(n), w >= 0)), "numpy:split chunk width")
-        cx.require(f"safe.split#{cx.ordinal('safe.split')}", T.eq(T.mod(n, s), 0), "safe", "np.split: equal division")
+        hint = itp.scratch.get("split_width_hint")
+        if hint is not None:
+            w = T.zi(hint)
+            # equal division witnessed by the chunk width supplied by the contract: w * sections == len
+            cx.require(f"safe.split#{cx.ordinal('safe.split')}", T.land(T.eq(T.mul(w, s), n), T.ge(w, 0)), "safe", "np.split: equal division (witness: chunk width)")
+        else:
+            w = z3.Int(f"split_w!{o}")
+            cx.fact(z3.Implies(T.zi(n) % T.zi(s) == 0, z3.And(w * T.zi(s) == T.zi(n), w >= 0)), "numpy:split chunk width")
+            cx.require(f"safe.split#{cx.ordinal('safe.split')}", T.eq(T.mod(n, s), 0), "safe", "np.split: equal division")
         g = v.getter()
 
         def chunk(j):
@@ -1024,7 +1035,8 @@ def install(reg):
             c = SArr.fresh((w,), lambda idx: g((T.add(T.mul(jj, w), idx[0]),)), v.dtype, name="chunk")
             c.chunk_info = (jj, w)
             return c
-        return SSeq(s, chunk, "list", name="split")
+        from ..engine.values import SList
+        return SList(s, chunk, "split")
 
     @fn("numpy.tile")
     def np_tile(itp, a, k):
